@@ -6,6 +6,7 @@ import (
 	"net/http"
 	"strings"
 	"sync"
+	"time"
 )
 
 // IPHashConsistentStrategy implements IP hash with Jump Consistent Hash algorithm.
@@ -64,10 +65,11 @@ func (iph *IPHashConsistentStrategy) NextBackend(r *http.Request) *Backend {
 		return nil
 	}
 
-	// Get healthy backends
+	// Get backends outside an unhealthy window
+	now := time.Now()
 	healthyBackends := make([]*Backend, 0)
 	for _, b := range iph.backends {
-		if b.IsHealthy {
+		if b.eligible(now) {
 			healthyBackends = append(healthyBackends, b)
 		}
 	}
